@@ -827,6 +827,115 @@ func runMuxStress(c *engine.Ctx, round int, seed int64) {
 	}
 }
 
+// muxSpinSource is a source listener that always has a connection ready (until it is closed)
+type muxSpinSource struct {
+	closed atomic.Bool
+	next   atomic.Int64
+	mu     sync.Mutex
+	handed []*acctConn
+}
+
+func (f *muxSpinSource) Accept() (net.Conn, error) {
+	if f.closed.Load() {
+		return nil, net.ErrClosed
+	}
+	cn := newAcctConn(int(f.next.Add(1)))
+	f.mu.Lock()
+	f.handed = append(f.handed, cn)
+	f.mu.Unlock()
+	return cn.wire(), nil
+}
+func (f *muxSpinSource) Close() error   { f.closed.Store(true); return nil }
+func (f *muxSpinSource) Addr() net.Addr { return muxAddr{} }
+
+// runMuxPumpCloseRace: a source listener that always has a connection ready is being pumped into the multiplexing
+// listener and an accepter drains it, when Close is called at a moment that varies from round to round. Close
+// returns, Accept reports closed, and every connection the pump took is returned or closed exactly once.
+func runMuxPumpCloseRace(c *engine.Ctx, rounds int) {
+	r := c.R
+	rng := c.Rng("mux-pump-close-race")
+	for round := 0; round < rounds; round++ {
+		l, err := nodenet.NewMultiplexingListener(context.Background(), muxAddr{})
+		if err != nil {
+			r.Broken("mux pump race: " + err.Error())
+			return
+		}
+		src := &muxSpinSource{}
+		if err := l.IngressListener(src); err != nil {
+			r.Broken("mux pump race: " + err.Error())
+			return
+		}
+		accDone := make(chan struct{})
+		go func() {
+			defer close(accDone)
+			for {
+				cn, aerr := l.Accept()
+				if aerr != nil {
+					return
+				}
+				if ac, ok := acctOf(cn); ok {
+					ac.returned.Add(1)
+				}
+			}
+		}()
+		for spin := rng.Intn(2000); spin > 0; spin-- {
+			runtime.Gosched()
+		}
+		closeDone := make(chan struct{})
+		go func() { _ = l.Close(); close(closeDone) }()
+		select {
+		case <-closeDone:
+		case <-time.After(15 * time.Second):
+			// a finding only if goroutines are parked on the listener's lock
+			buf := make([]byte, 2<<20)
+			buf = buf[:runtime.Stack(buf, true)]
+			parked := 0
+			for _, g := range strings.Split(string(buf), "\n\n") {
+				if strings.Contains(g, "nodeenrollment/net.(*MultiplexingListener)") && (strings.Contains(g, "sync.(*RWMutex)") || strings.Contains(g, "sync.(*Mutex).Lock")) {
+					parked++
+				}
+			}
+			src.Close()
+			if parked > 0 {
+				r.Violation("close-did-not-return:pump-close-race", fmt.Sprintf("Close was called while a source listener was being pumped into the multiplexing listener (round %d): it has not returned after 15 s and %d goroutines of the listener are parked on its lock", round, parked), map[string]any{"round": round, "seed": c.Seed})
+			} else {
+				r.Inconclusive("mux pump race: Close did not return within 15 s and no listener goroutine is parked on a lock")
+			}
+			return
+		}
+		src.Close()
+		select {
+		case <-accDone:
+		case <-time.After(10 * time.Second):
+			r.Violation("accept-after-close-did-not-report-closed:pump-close-race", "an Accept call did not return after Close had returned", map[string]any{"round": round, "seed": c.Seed})
+			return
+		}
+		// the pump may still hold the connection it had just taken: give it a moment to close it
+		bad := ""
+		for wait := 0; wait < 200; wait++ {
+			bad = ""
+			src.mu.Lock()
+			for _, cn := range src.handed {
+				if n := cn.returned.Load() + cn.closes.Load(); n != 1 {
+					bad = fmt.Sprintf("connection %d: returned %d times, closed %d times", cn.id, cn.returned.Load(), cn.closes.Load())
+					break
+				}
+			}
+			src.mu.Unlock()
+			if bad == "" {
+				break
+			}
+			time.Sleep(5 * time.Millisecond)
+		}
+		r.Eval(fmt.Sprintf("pump-close-race round %d", round), true)
+		if bad != "" {
+			r.Violation("connection-lost-or-duplicated:pump-close-race", "after Close during pumping: "+bad, map[string]any{"round": round, "seed": c.Seed})
+			return
+		}
+		r.Count("pump_close_race_rounds", 1)
+	}
+}
+
 func runMux(c *engine.Ctx) engine.Result {
 	r := c.R
 	res := engine.Result{
@@ -953,6 +1062,8 @@ func runMux(c *engine.Ctx) engine.Result {
 		runMuxStress(c, i, c.Seed)
 	}
 
+	runMuxPumpCloseRace(c, c.Pick(3000, 60000))
+	r.Require("pump_close_race_rounds", 1000)
 	r.Require("connections_returned_once", 20)
 	r.Require("connections_closed", 20)
 	// a source listener whose Accept fails with a temporary error
